@@ -3,8 +3,11 @@ import Oracle.Util
 /- suite "e2e*": e2e <cfg…> H <history…> Q <query…>   (grammar: harness/cmd/corr/e2e_suite.go)
    answer: one segment per query, joined by " | ":
      ids  → kind=ids order=<vid,…> must=<vid,…> may=<vid,…> cls=<c,…>
-     recs → kind=recs recs=<vid>{k=tv,…};…
-     stats→ kind=stats rows=<k1\x1fk2>=<agg;agg>,…   (values exact rationals num/den) -/
+     recs → kind=recs recs=<vid>{k=tv,…};… nsgrant=<vid>:<col>,…   (numeric strings whose OWN block holds a JSON number in that column)
+     stats→ kind=stats rows=<k1\x1fk2>=<agg;agg>,…   (values exact rationals num/den)
+     tc   → kind=tchart rows=<cell start>:<series>=<agg;agg>,… [rows2=…] [rowsdev=…]   series: - (no by-field) | ~ (NULL series) | hex(key)
+   history tokens `rq/<filter>` (a query run in the middle of the history, answer discarded) and query tokens `w` (wait
+   for the background persistent-query write) do not change the specification's answer. -/
 namespace Oracle.E2E
 open SigModel.Spec Oracle
 
@@ -68,6 +71,7 @@ inductive Stage where
   | stats (aggs : List Agg) (bys : List String)
   | recs
   | pages (k : Nat)
+  | tc (span : Nat) (aggs : List Agg) (by_ : Option String)
 deriving Repr
 
 def parseAgg (s : String) : Option Agg :=
@@ -80,12 +84,19 @@ def parseAgg (s : String) : Option Agg :=
   | "dc" :: f => some (.dc (".".intercalate f))
   | _ => none
 
+def showAgg : Agg → String
+  | .count => "count" | .sum f => "sum." ++ f | .min f => "min." ++ f | .max f => "max." ++ f | .avg f => "avg." ++ f | .dc f => "dc." ++ f
+
 def parseStage (s : String) : Option Stage :=
   match s.splitOn ":" with
   | ["stats", aggs, bys] =>
     ((aggs.splitOn "+").mapM parseAgg).map (fun a => Stage.stats a (if bys == "-" then [] else bys.splitOn "+"))
   | ["recs"] => some .recs
   | ["pages", k] => k.toNat?.map Stage.pages
+  | ["tc", span, aggs, by_] =>
+    match span.toNat?, (aggs.splitOn "+").mapM parseAgg with
+    | some sp, some a => if sp == 0 || by_.isEmpty then none else some (Stage.tc sp a (if by_ == "-" then none else some by_))
+    | _, _ => none
   | _ => none
 
 structure Query where
@@ -114,23 +125,41 @@ def showVal : Val → String
 
 def joinNats (l : List Nat) : String := ",".intercalate (l.map toString)
 
-/-- flushed events of a history: everything `send`-ed before the last `fl`/`ro` -/
-def flushedEvents (toks : List String) : Option (List Event) :=
-  let rec go (toks : List String) (batch pending flushed : List Event) : Option (List Event) :=
+/-- the blocks of a history, in flush order: the events `send`-ed between two flushes (`fl` / `ro`) form one block (the
+write buffer of the index is cut at every flush; with at most a few dozen small events it never fills up earlier).
+Events not yet sent, or sent after the last flush, are in no block.  `rq/…` tokens (a query run at that point of the
+history) do not change what is stored. -/
+def flushedBlocks (toks : List String) : Option (List (List Event)) :=
+  let rec go (toks : List String) (batch pending : List Event) (blocks : List (List Event)) : Option (List (List Event)) :=
     match toks with
-    | [] => some flushed
+    | [] => some blocks
     | t :: r =>
-      if t == "send" then go r [] (pending ++ batch) flushed
-      else if t == "fl" || t == "ro" then go r batch [] (flushed ++ pending)
+      if t == "send" then go r [] (pending ++ batch) blocks
+      else if t == "fl" || t == "ro" then go r batch [] (if pending.isEmpty then blocks else blocks ++ [pending])
+      else if t.startsWith "rq/" then go r batch pending blocks
       else match parseEv t with
-        | some e => go r (batch ++ [e]) pending flushed
+        | some e => go r (batch ++ [e]) pending blocks
         | none => none
   go toks [] [] []
+
+/-- flushed events of a history: everything `send`-ed before the last `fl`/`ro` -/
+def flushedEvents (toks : List String) : Option (List Event) := (flushedBlocks toks).map List.flatten
+
+/-- (vid, column) of every STRING value whose own block holds a JSON number in the same column: only there does the
+writer's "one type per block column" rule (consolidateColumnTypes) apply, which may hand a numeric string back as a number -/
+def numStrGrants (blocks : List (List Event)) : List (Nat × String) :=
+  blocks.flatMap (fun blk =>
+    let numCols := (blk.flatMap (fun e => e.fields.filterMap (fun (k, v) => match v with | .int _ | .dec _ _ => some k | _ => none))).eraseDups
+    blk.flatMap (fun e => e.fields.filterMap (fun (k, v) => match v with
+      | .str _ => if numCols.contains k then some (e.vid, k) else none
+      | _ => none)))
 
 def showKey (k : List String) : String := "\x1f".intercalate k
 def hexOf (s : String) : String := bytesHex (s.toUTF8.toList.map (·.toNat))
 
-def answer (evs : List Event) (q : Query) : String :=
+/-- the specification's answer; `blocks` = the flushed events in their blocks (only the latitude `nsgrant` of `recs` depends on the blocks) -/
+def answerB (blocks : List (List Event)) (q : Query) : String :=
+  let evs := blocks.flatten
   let inr := evs.filter (inRange q.start q.end_)
   let tri := inr.map (fun e => (e, evalFilter e q.filter))
   -- `!=` / NOT on a field that some event in range lacks: whether such an event matches is left to the
@@ -154,7 +183,8 @@ def answer (evs : List Event) (q : Query) : String :=
     let cols := (evs.flatMap (fun e => e.fields.map (·.1))).eraseDups
     let texty := cols.filter (fun c => evs.any (fun e => match e.get c with
       | some (.str t) => (numericText? t).isNone | some (.bool _) => true | _ => false))
-    s!"kind=recs from={q.from_} size={q.size} recs={";".intercalate recs} texty={",".intercalate texty} may={joinNats (may.map (·.vid))} cls={",".intercalate cls}"
+    let grants := (numStrGrants blocks).map (fun (v, k) => s!"{v}:{k}")
+    s!"kind=recs from={q.from_} size={q.size} recs={";".intercalate recs} texty={",".intercalate texty} nsgrant={",".intercalate grants} may={joinNats (may.map (·.vid))} cls={",".intercalate cls}"
   | [.stats aggs bys] =>
     let groups := if bys.isEmpty then [([], must)] else groupBy must bys
     let rows := groups.map (fun (k, es) =>
@@ -163,8 +193,26 @@ def answer (evs : List Event) (q : Query) : String :=
     -- some matched event lacks a by-field: the comparison grants the extra empty-key group (lib/e2ecmp.py).  The former
     -- deviation classes by-field-sparse / measure-field-sparse / measure-field-absent-from-dataset are repaired and gone.
     let scls := if must.any (fun e => bys.any (fun b => (e.get b).isNone)) then ["grant:empty-by-key"] else []
-    s!"kind=stats rows={",".intercalate rows} nmay={may.length} cls={",".intercalate (cls ++ scls)}"
+    s!"kind=stats rows={",".intercalate rows} aggs={",".intercalate (aggs.map showAgg)} nmay={may.length} cls={",".intercalate (cls ++ scls)}"
+  | [.tc span aggs by_] =>
+    let showCells (bucket : Nat → Nat) : String :=
+      let rows := (timechart bucket must by_).map (fun ((b, k), es) =>
+        s!"{b}:" ++ (match by_, k with | none, _ => "-" | some _, none => "~" | some _, some t => hexOf t) ++ "=" ++
+          ";".intercalate (aggs.map (fun a => match evalAgg es a with | .num q => showRat q | .none => "none")))
+      ",".intercalate (sortBy (fun a b => a ≤ b) rows)
+    let atEnd := must.any (fun e => e.ts == q.end_)
+    let onGrid := q.start < q.end_ && (q.end_ - q.start) % span == 0
+    let rows := showCells (tcBucket q.start q.end_ span)
+    -- an event ON the end bound of the range whose end lies on the grid: own cell [end, end+span) is the other reading
+    let rows2 := if atEnd && onGrid then " rows2=" ++ showCells (bucketOf q.start span) else ""
+    -- recorded deviation (known_findings: e2e/timechart/event-at-end-bound-off-grid): end bound NOT on the grid, an event
+    -- exactly on it: the engine reports it in a cell starting at end − span, which is not a cell of the grid
+    let rowsdev := if atEnd && !onGrid then " rowsdev=" ++ showCells (fun ts => if ts == q.end_ then q.end_ - span else bucketOf q.start span ts) else ""
+    s!"kind=tchart span={span} rows={rows}{rows2}{rowsdev} aggs={",".intercalate (aggs.map showAgg)} nmay={may.length} cls={",".intercalate cls}"
   | _ => "kind=unsupported"
+
+/-- the answer over a plain event list (all events taken as one block; used by Oracle/C18E.lean) -/
+def answer (evs : List Event) (q : Query) : String := answerB [evs] q
 
 def e2e (args : List String) : String :=
   -- split at the markers H and Q
@@ -172,9 +220,9 @@ def e2e (args : List String) : String :=
   let (hist, r2) := (r1.drop 1).span (fun t => t != "Q" && t != "H2")
   -- an optional second layout of the SAME events (H2 …) does not change the specification's answer
   let r2 := r2.dropWhile (· != "Q")
-  let qs := r2.drop 1
-  match flushedEvents hist, qs.mapM parseQuery with
-  | some evs, some qs => " | ".intercalate (qs.map (answer evs))
+  let qs := (r2.drop 1).filter (· != "w")
+  match flushedBlocks hist, qs.mapM parseQuery with
+  | some blocks, some qs => " | ".intercalate (qs.map (answerB blocks))
   | _, _ => "bad-op"
 
 def handle (cmd : String) (args : List String) : Option String :=
